@@ -1153,9 +1153,9 @@ pub fn run(tier: &str) -> i32 {
       bitmap_bits: 1 << 14,
       samples_per_child: 1,
       deadline: Some(Duration::from_secs(match (thorough, deep) {
-        (true, Deep::Sweep) => 110,
-        (true, Deep::Windows) => 210,
-        (false, _) => 12,
+        (true, Deep::Sweep) => 440,
+        (true, Deep::Windows) => 840,
+        (false, _) => 180,
       })),
       ..PoolOpts::default()
     };
